@@ -26,13 +26,36 @@ pub const SOURCE_POLLED_AFTER_END: &str = "source-polled-after-end";
 /// Minimal executor: polls with a no-op waker until ready or until `budget` polls were spent.
 pub fn spin_block_on<F: Future>(fut: F, budget: usize) -> Result<F::Output, Stalled> {
     let mut fut = std::pin::pin!(fut);
-    let mut cx = Context::from_waker(Waker::noop());
+    let (waker, wakes) = counting_waker();
+    let mut cx = Context::from_waker(&waker);
     for _ in 0..budget {
+        let before = wakes.0.load(Ordering::SeqCst);
         if let Poll::Ready(v) = fut.as_mut().poll(&mut cx) {
             return Ok(v);
         }
+        // Every scripted environment object wakes its caller before it answers `Pending`, and
+        // there is no other task or thread: a `Pending` during which the waker was never called
+        // means nothing will ever wake this future — under a real executor it sleeps forever.
+        if wakes.0.load(Ordering::SeqCst) == before {
+            return Err(Stalled);
+        }
     }
     Err(Stalled)
+}
+
+/// A waker that counts how often it was called.
+pub struct WakeCounter(pub AtomicU64);
+impl std::task::Wake for WakeCounter {
+    fn wake(self: Arc<Self>) {
+        self.0.fetch_add(1, Ordering::SeqCst);
+    }
+    fn wake_by_ref(self: &Arc<Self>) {
+        self.0.fetch_add(1, Ordering::SeqCst);
+    }
+}
+pub fn counting_waker() -> (Waker, Arc<WakeCounter>) {
+    let c = Arc::new(WakeCounter(AtomicU64::new(0)));
+    (Waker::from(c.clone()), c)
 }
 
 #[derive(Debug, Clone, Copy, PartialEq, Eq)]
@@ -335,6 +358,8 @@ pub struct Collected {
     pub order: String,
     /// Polls that returned `Pending`.
     pub pendings: usize,
+    /// a poll answered `Pending` without the waker having been called (implies `stalled`)
+    pub lost_wakeup: bool,
     /// Whether the body failed to finish within the poll budget.
     pub stalled: bool,
     /// is_end_stream() right after the last frame
@@ -360,10 +385,20 @@ where
 {
     let mut body = std::pin::pin!(body);
     let mut out = Collected::default();
-    let mut cx = Context::from_waker(Waker::noop());
+    let (waker, wakes) = counting_waker();
+    let mut cx = Context::from_waker(&waker);
     for _ in 0..budget {
+        let before = wakes.0.load(Ordering::SeqCst);
         match body.as_mut().poll_frame(&mut cx) {
-            Poll::Pending => out.pendings += 1,
+            Poll::Pending => {
+                out.pendings += 1;
+                // see spin_block_on: `Pending` without a wake-up = the body would never be polled again
+                if wakes.0.load(Ordering::SeqCst) == before {
+                    out.lost_wakeup = true;
+                    out.stalled = true;
+                    return out;
+                }
+            }
             Poll::Ready(None) => {
                 out.end_stream_flag = body.is_end_stream();
                 return out;
